@@ -5,7 +5,7 @@
 From Coq Require Import List NArith Arith Bool Lia.
 From ApiFu Require Import Base.Sexp Vld.Ast Vld.Inspect Vld.InspectProofs Vld.TypeInfoModel Vld.TypeInfoPure
      Vld.ValidatorModel Vld.ValidSpec Vld.Hyps Vld.ProofsCommon Vld.ProofsDirectives Vld.ProofsArguments Vld.ProofsFragDecl Vld.ProofsValues
-     Vld.ProofsOrder Vld.ProofsTotal Vld.ProofsMemo Vld.ProofsSpreads Vld.ValidatorProofs.
+     Vld.ProofsOrder Vld.ProofsTotal Vld.ProofsMemo Vld.ProofsSpreads Vld.ValidatorProofs Vld.ProofsSpecReach Vld.ProofsVarsSpec Vld.ProofsSecondaryRules Vld.ProofsSpreadsSpec.
 Import ListNotations.
 
 Lemma validate_memo_nil q pi S F D :
@@ -71,4 +71,95 @@ Theorem accepted_doc_ok_conjuncts pi S F D :
 Proof.
   intros Hpi Hs H. destruct (memo_accepted_valid pi S F D Hpi Hs H) as [_ [_ [R [F1 [_ [FD [_ [C [_ [V D7]]]]]]]]]].
   repeat split; assumption.
+Qed.
+
+(** 5.5.2.2 (no fragment reaches itself) and 5.8.1 - 5.8.5 (variables) in the Spec's own formulation *)
+Theorem silent_cycles_variables_hold pi S F D :
+  order_ok pi -> schema_ok S = true -> rules_silent pi S F (pti_doc (q_unwrap_obj repaired) S F D) ->
+  valid_5_5_2_2 D = true /\
+  valid_5_8_1 D = true /\ valid_5_8_2 S F D = true /\ valid_5_8_3 S F D = true /\ valid_5_8_4 S F D = true /\ valid_5_8_5 S F D = true.
+Proof.
+  intros Hpi Hs Hsil. destruct (silent_rules_hold pi S F D Hpi Hsil) as [_ [H551 _]].
+  unfold valid_5_5_1 in H551. rewrite !andb_true_iff in H551. destruct H551 as [[[Hnd _] _] _].
+  destruct Hsil as [_ [_ [_ [_ [Hsp [_ [_ Hvar]]]]]]].
+  unfold schema_ok in Hs. apply andb_true_iff in Hs as [Hs _]. apply andb_true_iff in Hs as [Hs1 _].
+  pose proof (schema_no_typename_spec S F Hs1) as Hnt.
+  destruct (variables_silent_5_8 pi S F D Hpi Hnt Hnd Hvar) as [V1 [V2 [V3 V5]]].
+  split; [apply (spreads_silent_5_5_2_2 pi S F D Hpi Hnd Hsp) |].
+  repeat split; try assumption. apply (variables_silent_5_8_4 pi S F D Hpi Hnd Hvar).
+Qed.
+
+Theorem memo_accepted_cycles_variables pi S F D :
+  order_ok pi -> schema_ok S = true -> validate_model_memo repaired pi S F D = Done [] ->
+  valid_5_5_2_2 D = true /\
+  valid_5_8_1 D = true /\ valid_5_8_2 S F D = true /\ valid_5_8_3 S F D = true /\ valid_5_8_4 S F D = true /\ valid_5_8_5 S F D = true.
+Proof. intros Hpi Hs H. apply (silent_cycles_variables_hold pi S F D Hpi Hs (memo_accepted_silent pi S F D H)). Qed.
+
+(** every use of a variable the Spec attributes to an operation of an accepted document: the variable
+    is declared by that operation, its declared type exists, and the use is allowed at its position *)
+Theorem memo_accepted_usages_allowed pi S F D :
+  order_ok pi -> schema_ok S = true -> validate_model_memo repaired pi S F D = Done [] ->
+  forall ot n vars dirs sub, In (DOp ot n vars dirs sub) D ->
+  forall u, In u (op_usages S F D (DOp ot n vars dirs sub)) ->
+  exists vd, find_var (u_name u) vars = Some vd /\
+  exists vt, declared_type S F (vd_type vd) = Some vt /\
+  forall lt, u_type u = Some lt -> usage_allowed vd vt lt (u_default u) = true.
+Proof.
+  intros Hpi Hs H ot n vars dirs sub Hd u Hu. pose proof (memo_accepted_silent pi S F D H) as Hsil.
+  destruct (silent_rules_hold pi S F D Hpi Hsil) as [_ [H551 _]].
+  unfold valid_5_5_1 in H551. rewrite !andb_true_iff in H551. destruct H551 as [[[Hnd _] _] _]. apply nodupb_NoDup in Hnd.
+  destruct Hsil as [_ [_ [_ [_ [_ [_ [_ Hvar]]]]]]].
+  unfold schema_ok in Hs. apply andb_true_iff in Hs as [Hs _]. apply andb_true_iff in Hs as [Hs1 _].
+  pose proof (schema_no_typename_spec S F Hs1) as Hnt.
+  apply (op_usages_ok S F D Hnd Hnt ot n vars dirs sub); [| exact Hu].
+  apply (proj1 (rule_variables_fine S _ pi Hpi) Hvar). unfold pti_doc. apply in_map. exact Hd.
+Qed.
+
+(** [validate_ok_doc_ok], the part that is validation's: every conjunct of C01's [doc_ok] that rests
+    on a validation rule, for a document the validator (as it is, with the memo) accepts *)
+Theorem validate_ok_doc_ok_partial pi S F D :
+  order_ok pi -> schema_ok S = true -> validate_model_memo repaired pi S F D = Done [] ->
+  (* (a) type conditions *) valid_5_5_1 S F D = true /\
+  (* (b) directives, literal half *) (valid_5_7 S D = true /\ (values_typed_input S F D = true -> valid_5_6 S F D = true)) /\
+  (* (b) directives, variable half *)
+  (forall ot n vars dirs sub, In (DOp ot n vars dirs sub) D ->
+   forall u, In u (op_usages S F D (DOp ot n vars dirs sub)) ->
+   exists vd, find_var (u_name u) vars = Some vd /\
+   exists vt, declared_type S F (vd_type vd) = Some vt /\
+   forall lt, u_type u = Some lt -> usage_allowed vd vt lt (u_default u) = true) /\
+  (* (c) root types *) valid_root S D = true /\
+  (* (f) fields defined on the parent type *) (fields_defined S F D = true /\ valid_5_3_1 S F D = true).
+Proof.
+  intros Hpi Hs H. destruct (accepted_doc_ok_conjuncts pi S F D Hpi Hs H) as [Ha [Hb [Hc Hf]]].
+  split; [exact Ha |]. split; [exact Hb |]. split; [apply (memo_accepted_usages_allowed pi S F D Hpi Hs H) |]. split; assumption.
+Qed.
+
+(** every section of chapter 5 for which "accepted => holds" is proved, without side condition *)
+Theorem memo_accepted_valid_sections pi S F D :
+  order_ok pi -> schema_ok S = true -> schema_args_ok S = true -> validate_model_memo repaired pi S F D = Done [] ->
+  valid_5_2_1_1 D = true /\ valid_5_2_2_1 D = true /\ valid_root S D = true /\
+  valid_5_3_1 S F D = true /\ valid_5_3_3 S F D = true /\
+  valid_5_4 S F D = true /\
+  valid_5_5_1 S F D = true /\ valid_5_5_2_1 D = true /\ valid_5_5_2_2 D = true /\
+  valid_5_6 S F D = true /\
+  valid_5_7 S D = true /\
+  valid_5_8_1 D = true /\ valid_5_8_2 S F D = true /\ valid_5_8_3 S F D = true /\ valid_5_8_4 S F D = true /\ valid_5_8_5 S F D = true.
+Proof.
+  intros Hpi Hs Hargs H.
+  destruct (memo_accepted_valid pi S F D Hpi Hs H) as [A1 [A2 [A3 [A4 [A5 [A6 [A7 [A8 [A9 [A10 A11]]]]]]]]]].
+  destruct (memo_accepted_cycles_variables pi S F D Hpi Hs H) as [B1 [B2 [B3 [B4 [B5 B6]]]]].
+  assert (valid_5_6 S F D = true) as H56.
+  { apply A10. apply (values_typed_input_holds S F D Hargs (fields_defined_spec S F D A6)); [| exact B3].
+    unfold valid_5_7 in A11. rewrite !andb_true_iff in A11. tauto. }
+  repeat split; assumption.
+Qed.
+
+(** 5.5.2.3 (every spread is possible) in the Spec's formulation *)
+Theorem memo_accepted_spreads_possible pi S F D :
+  order_ok pi -> schema_impls_ok S = true -> validate_model_memo repaired pi S F D = Done [] -> valid_5_5_2_3 S F D = true.
+Proof.
+  intros Hpi Himpl H. pose proof (memo_accepted_silent pi S F D H) as Hsil.
+  destruct (silent_rules_hold pi S F D Hpi Hsil) as [_ [H551 _]].
+  unfold valid_5_5_1 in H551. rewrite !andb_true_iff in H551. destruct H551 as [[[Hnd _] _] _].
+  destruct Hsil as [_ [_ [_ [_ [Hsp _]]]]]. apply (spreads_silent_5_5_2_3 pi S F D Hpi Himpl Hnd Hsp).
 Qed.
